@@ -1,5 +1,6 @@
 import AL.Model.Render
 import AL.Model.JsonEnc
+import AL.Model.Messages
 import AL.Model.Proc
 import AL.Model.Positions
 import AL.Model.Parser
@@ -69,6 +70,14 @@ def handleJsonEnc (args : List String) : String :=
   match go args [] with
   | some fs => hexStr (String.ofList (AL.JsonEnc.encAll fs))
   | none => "bad-op"
+
+/-- `escape <msghex>`: `lineBreakEscaper.Replace` -/
+def handleEscape : List String → String
+  | [h] =>
+    match unhexStr h with
+    | some m => hexStr (String.ofList (AL.Msg.escape m.toList))
+    | none => "bad-op"
+  | _ => "bad-op"
 
 /-- `sanitize <scripthex>` -/
 def handleSanitize : List String → String
